@@ -297,6 +297,12 @@ def gen_keyed_cases(rng):
         ("select id from k1 where id not in (select id from k2 where v > 1)", False, 0),
         ("select id, count(*), sum(v) from k1 group by id", False, 0),
         ("select id, count(*) from k1 where id >= %d group by id order by id" % lo, True, 1),
+        # ORDER BY the key while the key itself is not selected (the key column is pruned from everything above the scan;
+        # the key is unique, so the sequence of the other column is determined)
+        ("select v from k1 order by id", True, 0),
+        ("select v from k1 where id >= %d order by id" % lo, True, 0),
+        ("select v, v + 1 from k1 order by id limit 5", True, 0),
+        ("select b.v from k1 a join k2 b on a.id = b.id order by a.id", True, 0),
         # key ranges whose bounds are constants of different types (only an all-INT range may go into the scan)
         ("select id from k1 where id >= %d and id <= %d.5" % (lo, hi), False, 0),
         ("select id, v from k1 where id between %d and %d.5" % (lo, hi), False, 0),
